@@ -56,11 +56,26 @@ def _fold(ctx, entry: GateEntry, args: List[EP]) -> Mat:
             return r[1].node, r[1].qualname
         return None
 
+    _shared_results(ctx, entry)
     ev = Evaluator(resolve)
+    ev.module_assigns = dict(mod.assigns)
     out = ev.run(entry.factory.node, args)
     if not isinstance(out, Mat):
         raise Undecided(f"{entry.factory.qualname} does not return a matrix")
     _fold_decorators(ctx, entry, ev, out)
+    for fname, pname, cval, special, stmt in ev.special_cases:
+        # a special answer for one parameter value inside a factory (`if angle == 0: return i_matrix()`): it has to be the closed
+        # form at that value -- same shape, same entries
+        where = f"{entry.factory.module.relpath}:{stmt.lineno}"
+        construct = f"{entry.factory.key}:special-case:{fname}:{short(stmt.test, 30)}"
+        if fname != entry.factory.node.name or pname not in positional_params(entry.factory.node) or not isinstance(special, Mat):
+            raise Undecided(f"special case `{short(stmt.test)}` inside the helper {fname}")
+        want = out.subst({pname: cval})
+        if special.shape != want.shape:
+            ctx.violation(R2, construct, f"{entry.ident}: `{short(stmt.test)}` is answered with {short(stmt.body[0].value)}, a {special.shape[0]}x{special.shape[1]} matrix, but the gate's matrix is {want.shape[0]}x{want.shape[1]}: at that parameter value the gate has the wrong dimension", where)
+            continue
+        diff = special.first_difference(want)
+        ctx.check(diff is None, R7, construct, f"{entry.ident}: the special answer for `{short(stmt.test)}` is the closed form at that value", f"{entry.ident}: `{short(stmt.test)}` is answered with {short(stmt.body[0].value)}, but the closed form there has [{diff[0]}][{diff[1]}] = {diff[3]!r} (special answer: {diff[2]!r})" if diff else "", where)
     # a parameter reduced modulo a period before use: the fold ignored the reduction, which is only right if the folded
     # table really has that period (M(p + P) = M(p) identically); otherwise values outside the principal range get a
     # different matrix than the closed form (e.g. a sign for half-angle gates), which breaks additivity
@@ -73,6 +88,19 @@ def _fold(ctx, entry: GateEntry, args: List[EP]) -> Mat:
         where = f"{entry.factory.module.relpath}:{entry.factory.node.lineno}"
         ctx.check(diff is None, "C02-D6 group-law", f"{entry.factory.key}:reduction:{pname}", f"{entry.ident}: `{pname}` is reduced modulo {period!r} and the matrix has that period", f"{entry.ident}: `{pname}` is reduced modulo {period!r} before the matrix is built, but the closed form does not have that period: M({pname} + P)[{diff[0]}][{diff[1]}] = {diff[2]!r} vs {diff[3]!r}; angles outside the principal range give a different gate, so angle a followed by angle b is no longer angle a+b" if diff else "", where)
     return out
+
+
+def _shared_results(ctx, entry: GateEntry) -> None:
+    """A factory hands out a matrix built on this call. Returning one module-level *mutable* matrix makes every gate using the
+    factory share it: after a caller edits the matrix it was given, the gate's matrix is no longer what the table says
+    (sympy.Matrix / eye / zeros are mutable; ImmutableMatrix is not)."""
+    f = entry.factory
+    for r in returned_exprs(f.node):
+        if isinstance(r, ast.Name) and r.id in f.module.assigns and r.id not in {a.arg for a in f.node.args.args}:
+            v = f.module.assigns[r.id]
+            last = (dotted(v.func) or "").split(".")[-1] if isinstance(v, ast.Call) and dotted(v.func) else ""
+            if last and "Immutable" not in last and last not in ("tuple", "frozenset"):
+                ctx.violation(R4, f"{f.key}:shared-result:{r.id}", f"{entry.ident}: the factory returns the module-level object `{r.id}` (= {short(v)}), a mutable matrix shared by every call: a caller editing the matrix of one gate changes the matrix of every gate built from this factory, so the gate is no longer the one the table defines", f"{f.module.relpath}:{r.lineno}")
 
 
 def _fold_decorators(ctx, entry: GateEntry, ev: Evaluator, out: Mat) -> None:
@@ -175,6 +203,11 @@ def check_table(ctx, table: List[GateEntry]):
         want = {"name": ps[0], "matrix_factory": ps[1], "params": star, "num_qubits": ps[2], "is_hermitian": ps[3]}
         got = {k: norm(arg_or_kw(call, i, k)) for i, k in enumerate(["name", "matrix_factory", "params", "num_qubits", "is_hermitian"])}
         bad = [f"{k}: passes {got[k]!r}, expected {want[k]!r}" for k in want if got[k] != want[k]]
+        # ... and passes the parameters *as given*: a prototype that rewrites them (wrapping angles into one turn, rounding,
+        # sorting) builds a different gate than the one asked for -- half-angle gates have period 4*pi, so RX(a) for a reduced
+        # modulo 2*pi is -RX(a) and "angle a followed by angle b equals angle a+b" fails across the wrap
+        rebinds = [st for st in ast.walk(nested[0]) if isinstance(st, (ast.Assign, ast.AugAssign, ast.AnnAssign)) and star is not None and any(isinstance(t, ast.Name) and t.id == star for t in ast.walk(st.targets[0] if isinstance(st, ast.Assign) else st.target))] if nested else []
+        ctx.check(not rebinds, R6, proto.key + ":parameters-as-given", "the gate is built from the parameters the prototype was called with", f"the prototype rewrites the call's parameters before building the gate (`{short(rebinds[0], 90) if rebinds else ''}`): the gate then is not the table's gate at the requested parameter (e.g. an angle reduced modulo 2*pi flips the sign of the half-angle gates RX, RY, RZ, XX, YY, ZZ, so RX(4)*RX(3) != RX(7))", f"{proto.module.relpath}:{rebinds[0].lineno}" if rebinds else proto)
         ctx.check(not bad, R1, proto.key + ":slots", "prototype passes name, factory, the call's parameters, qubit count and flag to the matching slots", "prototype helper mis-routes a field: " + "; ".join(bad), proto)
     # MatrixFactoryGate.matrix = matrix_factory(*params)
     m = repo.func("circuits._gates:MatrixFactoryGate.matrix")
@@ -339,6 +372,11 @@ def run(ctx):
     rel("SWAP=exchange", ["SWAP"], lambda: F["SWAP"], swap_perm, "SWAP maps |ab> to |ba>")
     rel("Delay=identity", ["Delay"], lambda: F["Delay"], lambda: I2, "Delay(d) is the identity for every duration")
     rel("I=identity", ["I"], lambda: F["I"], lambda: I2, "I is the identity")
+    # what the self-adjoint flag is trusted for: a base gate is handed out as its own dagger exactly under that flag (and is
+    # wrapped in Dagger otherwise) -- decided once, by C07-D6
+    from .c07 import check_matrix_factory_dagger
+
+    check_matrix_factory_dagger(ctx, R3)
     ctx.floor("C02-D1", 27 + 3)
     ctx.floor("C02-D2", 27)
     ctx.floor("C02-D3", 10)
